@@ -8,10 +8,11 @@
   spec.select <sel> <maxpages> specSelect on the model's page list          -> same form
   render <rot> <box4> <tx> <ty>      model: LTPage.bbox + glyph matrix      -> 10 rationals
   spec.render <rot> <box4> <tx> <ty> specification of the same              -> 10 rationals | outside-domain
+  xmlbox <rot> <rotation> <box4>     model: LTPage.bbox under extract_text_to_fp(rotation=) -> 4 rationals
   rotate <r>                   norm_rotate                                  -> integer
 
   object syntax:  atoms i:<int> r:<p/q> n:<name> R:<n> null ; arrays [ a a ] ; flat dictionaries { k a k a } ;
-                  dictionary objects << k v k v >>
+                  (array elements may also be flat dictionaries) ; dictionary objects << k v k v >>
 -/
 import PdfVerif.Spec.PageTree
 
@@ -25,13 +26,6 @@ def parseAtom (s : String) : Option Atom :=
   else if s.startsWith "R:" then Atom.ref <$> (s.drop 2).toString.toNat?
   else none
 
-partial def parseAtoms : List String → List Atom → Option (List Atom × List String)
-  | "]" :: rest, acc => some (acc.reverse, rest)
-  | t :: rest, acc => match parseAtom t with
-    | some a => parseAtoms rest (a :: acc)
-    | none => none
-  | [], _ => none
-
 partial def parseFlat : List String → List (String × Atom) → Option (List (String × Atom) × List String)
   | "}" :: rest, acc => some (acc.reverse, rest)
   | k :: t :: rest, acc => match parseAtom t with
@@ -39,8 +33,18 @@ partial def parseFlat : List String → List (String × Atom) → Option (List (
     | none => none
   | _, _ => none
 
+partial def parseElems : List String → List Elem → Option (List Elem × List String)
+  | "]" :: rest, acc => some (acc.reverse, rest)
+  | "{" :: rest, acc => match parseFlat rest [] with
+    | some (kvs, rest') => parseElems rest' (Elem.dict kvs :: acc)
+    | none => none
+  | t :: rest, acc => match parseAtom t with
+    | some a => parseElems rest (Elem.atom a :: acc)
+    | none => none
+  | [], _ => none
+
 def parseVal : List String → Option (Val × List String)
-  | "[" :: rest => (fun r => (Val.arr r.1, r.2)) <$> parseAtoms rest []
+  | "[" :: rest => (fun r => (Val.arr r.1, r.2)) <$> parseElems rest []
   | "{" :: rest => (fun r => (Val.dict r.1, r.2)) <$> parseFlat rest []
   | t :: rest => (fun a => (Val.atom a, rest)) <$> parseAtom t
   | [] => none
@@ -64,10 +68,7 @@ structure St where
   objs : List (Nat × Obj) := []
   catalog : Dict := []
 
-def St.store (st : St) : Store :=
-  let n := st.objs.foldl (fun m p => max m (p.1 + 1)) 0
-  let arr : Array (Option Obj) := st.objs.foldl (fun a p => a.set! p.1 (some p.2)) (Array.replicate n none)
-  fun i => (arr[i]?).join
+def St.store (st : St) : Store := st.objs
 
 def St.ids (st : St) : List Nat := (st.objs.map (·.1)).mergeSort (fun a b => a ≤ b)
 
@@ -78,7 +79,8 @@ def showBox (r : Rect) : String :=
   " ".intercalate ([a, b, c, d].map ratToString)
 
 def showPage (p : Page) : String :=
-  s!"{p.id} {p.rotate} {showBox p.mediabox} {showBox p.cropbox} " ++
+  (match p.id with | some i => toString i | none => "None") ++
+  s!" {p.rotate} {showBox p.mediabox} {showBox p.cropbox} " ++
     (match p.marker with | some m => toString m | none => "-")
 
 def showPages (r : List Page × Option Err) : String :=
@@ -129,6 +131,10 @@ def step (st : St) (line : String) : St × String :=
         (st, showRender (specRender rot (x0, y0, x1, y1) (tx, ty)))
       else (st, "outside-domain")
     | _, _ => (st, "bad-op")
+  | ["xmlbox", rot, rotation, x0, y0, x1, y1] =>
+    match rot.toInt?, rotation.toInt?, [x0, y0, x1, y1].mapM ratOfString with
+    | some rot, some rotation, some [x0, y0, x1, y1] => (st, showBox (rotatedBox rot rotation (x0, y0, x1, y1)))
+    | _, _, _ => (st, "bad-op")
   | ["rotate", r] =>
     match r.toInt? with
     | some r => (st, toString (norm_rotate r))
